@@ -224,6 +224,135 @@ def check_get(run, db):
     return n
 
 
+def _ev_subterms(e):
+    """all sub-terms an event evaluates (expression, both sides of an assignment, initialisers of declared variables)"""
+    roots = [e.get('e'), e.get('lhs'), e.get('rhs')] + [v.get('init') for v in e.get('vars', [])]
+    for r in roots:
+        if isinstance(r, dict):
+            for st in subterms(r):
+                yield st
+
+
+def _registers_exit_detector(db, f, memo, depth=0):
+    """does every normal path through f that hands out a stack odr-use thread_exit_detector (directly or in a callee on every path)?"""
+    if f.key in memo:
+        return memo[f.key]
+    memo[f.key] = False
+    if depth > 4:
+        return False
+
+    def pred(e):
+        for st in _ev_subterms(e):
+            if isinstance(st, dict) and st.get('k') == 'global' and 'thread_exit_detector' in str(st.get('name', '')):
+                return True
+            if isinstance(st, dict) and st.get('k') in ('call', 'construct', 'new'):
+                g = db.fns.get(st.get('key'))
+                if g is not None and 'temporary_allocator' in g.loc and _registers_exit_detector(db, g, memo, depth + 1):
+                    return True
+        # base / member initialisers of constructors
+        if e['ev'] == 'init':
+            for st in subterms(e.get('e')):
+                if isinstance(st, dict) and st.get('k') in ('call', 'construct'):
+                    g = db.fns.get(st.get('key'))
+                    if g is not None and _registers_exit_detector(db, g, memo, depth + 1):
+                        return True
+        return False
+    memo[f.key] = flow.must_pass_through(f, pred)
+    return memo[f.key]
+
+
+def check_detector(run, db):
+    """a thread that gets a stack - a new one or one adopted from a finished thread - must have its thread-exit detector
+    instantiated (thread_local objects are only created in a thread that odr-uses them), otherwise the stack is never marked
+    unused again when that thread exits: every function that stores create()'s result in the thread's pointer registers the
+    detector on the way, or create() does on every path"""
+    n = 0
+    memo = {}
+    for f in tmp_fns(db):
+        w = [e for e in f.events() if e['ev'] == 'assign' and tstr(e['lhs']).endswith('temp_stack')
+             and any(isinstance(st, dict) and st.get('k') == 'call' and st.get('short') == 'create' for st in subterms(e['rhs']))]
+        if not w:
+            continue
+        n += 1
+        probs = []
+        if f.kind == 'ctor':
+            # RAII pairing: the class's destructor gives the stack back itself (its shape is R-TS14.own), no detector needed
+            dt = [g for g in db.fns.values() if g.cls == f.cls and g.kind == 'dtor']
+            if dt and any(t.get('short') == 'clear' and 'temp_stack' in tstr(t) for e2, t in flow.call_events(dt[0])):
+                _emit(run, 'R-TS14.detector', f, db, [], 'the stack is given back by the destructor of the same object', {'function': strip_ns(f.name), 'role': 'exit detector instantiated'})
+                continue
+        for e in w:
+            creates = [db.fns.get(st.get('key')) for st in subterms(e['rhs']) if isinstance(st, dict) and st.get('k') == 'call' and st.get('short') == 'create']
+            via_create = all(g is not None and _registers_exit_detector(db, g, memo) for g in creates)
+            # on the path through this function that performs the write
+            here = False
+            for e2 in f.events():
+                if any(isinstance(st, dict) and st.get('k') == 'global' and 'thread_exit_detector' in str(st.get('name', '')) for st in _ev_subterms(e2)):
+                    if e2.block == e.block or f.ev_dominates(e, e2) or f.ev_dominates(e2, e):
+                        here = True
+            if not via_create and not here:
+                probs.append('the thread obtains a stack from create(), which adopts a finished thread\'s stack without instantiating this thread\'s '
+                             'exit detector: when the adopting thread exits the stack stays marked in use and is never reused')
+        _emit(run, 'R-TS14.detector', f, db, probs, 'the exit detector is instantiated in every thread that obtains a stack',
+              {'function': strip_ns(f.name), 'role': 'exit detector instantiated'})
+    return n
+
+
+def check_cas(run, db):
+    """adopting a stack another thread left behind: every compare-exchange on an in_use_ flag expects `false` and stores `true`.
+    The expected-value object is written back by a failed exchange, so the only definitions of it that may reach an exchange are
+    initialisations / assignments with false; and the stack is returned only where the exchange succeeded."""
+    n = 0
+    for f in tmp_fns(db):
+        cas = [(e, t) for e, t in flow.call_events(f) if t.get('short', '').startswith('compare_exchange') and 'in_use_' in tstr(t.get('recv'))]
+        if not cas:
+            continue
+        n += 1
+        probs = []
+        for e, t in cas:
+            args = t.get('args', [])
+            if len(args) < 2:
+                probs.append('compare-exchange with %d argument(s)' % len(args))
+                continue
+            des = sym.strip_casts(args[1])
+            if not (des.get('k') == 'lit' and des.get('v') in (1, True)):
+                probs.append('the exchange stores %s, not true' % tstr(des)[:40])
+            exp = sym.strip_casts(args[0])
+            if exp.get('k') != 'local':
+                probs.append('the expected value is %s, not a local object' % tstr(exp)[:40])
+                continue
+            did = exp['did']
+
+            def transfer(st, ev, did=did):
+                if ev['ev'] == 'decl':
+                    for v in ev['vars']:
+                        if v['did'] == did:
+                            i = sym.strip_casts(v.get('init') or {})
+                            return frozenset(['false' if isinstance(i, dict) and i.get('k') == 'lit' and i.get('v') in (0, False) else 'other'])
+                if ev['ev'] == 'assign' and sym.strip_casts(ev['lhs']).get('did') == did and sym.strip_casts(ev['lhs']).get('k') == 'local':
+                    r = sym.strip_casts(ev['rhs'])
+                    return frozenset(['false' if ev['op'] == '=' and r.get('k') == 'lit' and r.get('v') in (0, False) else 'other'])
+                tt = top_term(ev)
+                if isinstance(tt, dict) and tt.get('k') == 'call' and tt.get('short', '').startswith('compare_exchange') and tt.get('args') \
+                        and sym.strip_casts(tt['args'][0]).get('did') == did:
+                    return frozenset(['written back by an earlier exchange'])
+                return st
+            _, before = flow.forward_may(f, [], transfer)
+            st = before.get((e.block, e.idx), frozenset())
+            if st != frozenset(['false']):
+                probs.append('the expected value of the exchange may be %s when it runs: a stack whose flag is already true (in use by a live thread) '
+                             'can be taken' % ', '.join(sorted(st) or ['uninitialised']))
+        # the node is handed out only where the exchange succeeded
+        for s in fwd.summarize(f, db=db, roles={}, no_forward=True):
+            if s.end != 'return' or s.ret in (None, 'null'):
+                continue
+            if not any('compare_exchange' in c and tk for c, tk in s.conds):
+                probs.append('returns %s on a path where no exchange succeeded' % s.ret[:50])
+        _emit(run, 'R-TS14.cas', f, db, probs, 'in_use_: false -> true, expected value fresh at every exchange; node returned only on success',
+              {'function': strip_ns(f.name), 'role': 'adopt only an unused stack'})
+    return n
+
+
 def _emit(run, rule, f, db, probs, okmsg, site):
     inst = '%s [%s]' % (f.display, db.config)
     if probs:
@@ -238,6 +367,8 @@ def run(run):
     run.rule('R-TS14.list', 'writers of the lock-free list', floor=2)
     run.rule('R-TS14.exit', 'process-exit cleanup', floor=2)
     run.rule('R-TS14.get', 'one stack per thread', floor=2)
+    run.rule('R-TS14.detector', 'every thread that obtains a stack has its exit detector instantiated', floor=2)
+    run.rule('R-TS14.cas', 'a stack is adopted only through in_use_: false -> true', floor=1)
     run.explanation = ('Typestate / who-may-write rules over src/temporary_allocator.cpp in temporary-stack mode 2. Linearizability of the lock-free '
                        'list, reuse fairness and races on a stack while it is adopted are schedule-level facts and need a model checker (another family).')
     did = 0
@@ -251,5 +382,9 @@ def run(run):
         check_list(run, db)
         check_exit(run, db)
         check_get(run, db)
+        if check_detector(run, db) < 2:
+            run.broke('no function stores create() in the thread\'s stack pointer [%s]' % cfg)
+        if check_cas(run, db) < 1:
+            run.broke('no compare-exchange on in_use_ found [%s]' % cfg)
     if not did:
         run.broke('no configuration with temporary stack mode 2')
